@@ -12,6 +12,13 @@ from . import common, gen_ref, cv_explore
 KF_EXC = 'exception-context-split-across-nodes'
 KF_NOLA = 'no-lookahead-enzyme-crash'
 KF_WIDE = 'wide-lookahead-rule-context-split'
+KF_NESTED = 'record-inside-splicing-insertion'
+
+
+def has_nested(r: dict) -> bool:
+    """the input has a small record inside the stretch an alternative-splicing Insertion /
+    Substitution record inserts"""
+    return bool(r.get('stats', {}).get('with_nested_in_splicing_insertion'))
 
 
 def rule_tables():
@@ -116,8 +123,14 @@ def explore(ctx: common.Ctx, n_jobs: int, opts: dict, procs: int = 14) -> List[d
             wlines.append(r['set_line'])
             widx.append(None)
             for w in ws:
+                if len(w) > 4 and w[4]:
+                    wlines.append(w[4])
+                    widx.append(None)
                 wlines.append(w[0])
                 widx.append((i, w))
+                if len(w) > 4 and w[4]:
+                    wlines.append(r['set_line'])
+                    widx.append(None)
         wouts = ctx.lean(wlines) or []
         for r in done:
             r['witness_no'] = [w for w in r['witness'] if w[0] is None]
@@ -138,14 +151,39 @@ def explore(ctx: common.Ctx, n_jobs: int, opts: dict, procs: int = 14) -> List[d
             clines.append(r['set_line'])
             cidx.append(None)
             for w in bad[:6]:
+                if len(w) > 4 and w[4]:
+                    clines.append(w[4])
+                    cidx.append(None)
                 clines.append(w[0].replace('\tw\t', '\twsup\t', 1))
                 cidx.append((i, w))
+                if len(w) > 4 and w[4]:
+                    clines.append(r['set_line'])
+                    cidx.append(None)
         couts = ctx.lean(clines) or []
         for r in done:
             r['witness_completion'] = {}
         for k, o in zip(cidx, couts):
             if k is not None:
                 done[k[0]]['witness_completion'][k[1][2]] = o
+        # does an omitted record lie inside the stretch encoding the peptide?
+        ilines, iidx = [], []
+        for i, r in enumerate(done):
+            todo = [(w, r['witness_completion'].get(w[2], '')) for w in r.get('witness_no', []) if w[0]]
+            todo = [(w, c) for w, c in todo if c.startswith('extra:') and c != 'extra:']
+            if not todo:
+                continue
+            ilines.append(r['set_line'])
+            iidx.append(None)
+            for w, c in todo:
+                f = w[0].split('\t')
+                ilines.append('\t'.join(['S', 'winside', f[4], c[6:], f[5]]))
+                iidx.append((i, w))
+        iouts = ctx.lean(ilines) or []
+        for r in done:
+            r['omitted_inside'] = {}
+        for k, o in zip(iidx, iouts):
+            if k is not None:
+                done[k[0]]['omitted_inside'][k[1][2]] = o
     shutil.rmtree(gen_ref.WORK, ignore_errors=True)
     return res
 
@@ -169,6 +207,13 @@ def judge_checkpoints(ctx: common.Ctx, res: List[dict], side: str):
             kind = m.group(1) if m else 'other'
             extra = int(m.group(3) or 0) if m else 0
             missing = int(m.group(4) or 0) if m else 0
+            if has_nested(r) and st != 'tvg1':
+                # known finding record-inside-splicing-insertion: create_variant_graph builds the
+                # right graph (tvg1 is asserted), fit_into_codons loses / truncates paths
+                ctx.count('G-' + st, 'failed_known_nested')
+                ctx.add_violation(f'Layer G checkpoint {st} fails on an input with a record inside a '
+                                  f'splicing insertion: {o[:200]}', describe(r), finding_key=KF_NESTED)
+                continue
             if kind == 'cuts' and wide_lookahead(enz):
                 # known finding wide-lookahead-rule-context-split: sites are decided on node
                 # fragments for these three enzymes; the cut checkpoint is not asserted for them
